@@ -775,6 +775,9 @@ func runC20(c *Ctx) {
 	// Z14 (= C08.O14): a decode loop ends on the decoder's error — a VERSION or NAME reply with a damaged list must not
 	// keep the caller spinning
 	checkDecodeLoopEndsOnError(c, "Z14", 6)
+	// Z15 (= C04.R4): a failed send is delivered through the in-flight table, so that a reply of absurd length (which
+	// ends the session) cannot leave the caller waiting on a channel nobody writes to
+	c.withOnly("R4", "Z15", func() { runC04(c) })
 }
 
 // clientAxioms adds: data returned by clientConn.sendPacket with a nil error, and result.data of a
